@@ -154,7 +154,7 @@ def run():
         cases.append(observe_case(a, th, tracked, rng.random() < 0.5, gen.CMap(rng.choice(gen.CMap.KINDS)), tm, sc, rng))
     nuni = len(cases)
     # random larger inputs
-    for i in range(300 if QUICK else 5000):
+    for i in range(300 if QUICK else 30000):
         a = gen.random_abstract(rng, N=rng.randint(1, 8), K=rng.randint(1, 6), max_edges=14)
         samples = [u for u in range(len(a["time"])) if a["flags"][u]]
         th = rng.choice([1, 1, 2, 3])
